@@ -53,7 +53,7 @@ def run_verus_unit(repo, unit_name, variant, workdir, log):
     """Returns dict(status, obligations, discharged, failures[], functions[], ...)."""
     unit = importlib.import_module("units." + unit_name)
     vname = unit_name + ("" if not variant else "[" + ",".join("%s=%s" % kv for kv in sorted(variant.items())) + "]")
-    res = {"unit": vname, "engine": "verus", "status": "pass", "failures": [], "undecided": [], "backend": "z3 (via Verus)"}
+    res = {"unit": vname, "engine": "verus", "status": "pass", "failures": [], "undecided": [], "backend": "z3 (via Verus)", "repo": repo}
     try:
         bu = V.build_unit(repo, unit, variant)
     except Undecided as e:
